@@ -147,9 +147,13 @@ def _layout_body(s, b, nfields, form):
         specs.append(("f", "a.txt", "text/plain", s))
     extra = [("g", None, None, "--" + BOUNDARY[:2]), ("h", "q\".txt", "text/x", b"\r\n--"), ("i", None, None, "")]
     specs.extend(extra[:nfields])
-    if which == "name":
+    if form != 0 and nfields >= 2:
+        # list containers may repeat a field name: both parts must come out, in order
+        specs.append((specs[0][0], None, None, "again"))
+    if form == 0:
         # a dict cannot hold the same name twice
-        specs = [sp for i, sp in enumerate(specs) if i == 0 or sp[0] != s]
+        seen = set()
+        specs = [sp for sp in specs if not (sp[0] in seen or seen.add(sp[0]))]
     # input form
     def as_tuple(sp):
         name, fn, ct, data = sp
